@@ -13,7 +13,7 @@ from checks.common.cases import explore_cases, run_case
 PROP = 'C09'
 LEVEL = 'exploration'
 SHARDS = {'quick': 4, 'thorough': 16}
-BUDGET_S = {'quick': 40, 'thorough': 300}
+BUDGET_S = {'quick': 150, 'thorough': 300}
 RULE = ('generated (helper, input, parameters) cases: sequences of length 0-40 (around multiples of size) as '
         'list/tuple/str/bytes/generator/one-shot iterator, sizes 1-12 and > len, separators at both ends and '
         'doubled, all maxsplit values, key as callable/attribute name/list; chunk_ranges swept over a grid of '
@@ -384,7 +384,7 @@ def shrink(case, fails):
 
 
 def run(ctx):
-    n = {'quick': 100000, 'thorough': 3000000}[ctx.tier]
+    n = {'quick': 120000, 'thorough': 3000000}[ctx.tier]
     explore_cases(ctx, gen, check, n, 'iter', shrink)
     # chunk_ranges grid: a slice in quick, the full grid (sharded) in thorough
     i = 0
